@@ -20,9 +20,10 @@ HEADS = [
 HEADS2 = [
     ("disj_cmp", "h(X) : t(X), X < Z ; g(Y)"),
     ("disj_neg", "h(X) : not s(X,Z) ; g(W)"),
-    ("choice_ub", "1 { h(X) : t(X) } Z"),
-    ("choice_lb", "Z { h(X) : t(X) }"),
-    ("hagg_ub", "0 #sum { 1,X : h(X) : t(X) } W"),
+    ("choice_ub", "1 { h(V,W) : u(V) } Z"),
+    ("choice_lb", "Z { h(V,W) : u(V) }"),
+    ("choice_lb_ub", "W { h(V,X) : u(V) } Z"),
+    ("hagg_ub", "0 #sum { 1,V : h(V,Z) : u(V) } W"),
 ]
 
 MENU = [
